@@ -24,7 +24,7 @@ BIG = 100000.0
 class Script:
     """The scripted sender: well-formed PDUs of one transaction, as bytes."""
 
-    def __init__(self, w, t, idw=None, seq_off=0, dst=None, large=False):
+    def __init__(self, w, t, idw=None, seq_off=0, dst=None, large=False, md_unbounded=False):
         c = w.cfg
         self.w = w
         syn = Synth(w, perturb=0)
@@ -40,7 +40,10 @@ class Script:
         s = max(c.eff_seg, 1)
         self.s = s
         conf, _, _ = syn.conf(t, "MD", seq, pert=False)
-        self.md = bytes(MetadataPdu(conf, MetadataParams(c.closure, c.ck, self.size, w.src_path, dst or w.dst_req)).pack())
+        # a sixth of the scripted senders announce file size 0 in the Metadata PDU: how CFDP marks an unbounded file (the
+        # size is then only known from the EOF PDU)
+        self.md_size = 0 if (md_unbounded and self.size > 0) else self.size
+        self.md = bytes(MetadataPdu(conf, MetadataParams(c.closure, c.ck, self.md_size, w.src_path, dst or w.dst_req)).pack())
         self.tiles = []
         off = 0
         while off < self.size:
@@ -112,7 +115,10 @@ def grid(t, attach=None, force=None) -> Ctx:
     # packet length still holds a NAK PDU with one 16-byte segment request
     crcb = 2 if cfg.crc else 0
     large = t.choose(4, "large file format") == 3 and cfg.mpl >= cfg.hdr_len + 1 + 16 + 16 + crcb
-    sc = Script(w, t, large=large)
+    unb = t.choose(6, "metadata announces an unbounded file") == 5
+    sc = Script(w, t, large=large, md_unbounded=unb)
+    if unb:
+        w.probe("grid_metadata_size_zero")
     if large:
         w.probe("grid_large_file_format")
     ctx.info["script"] = sc
